@@ -1920,7 +1920,7 @@ parse_rangestring(char *range, char c, char **ret_lowerp, int *ret_geq, char **r
       if (*(ptr+2) == '=') { *ret_leq = TRUE; *ret_upperp = ptr+3; } else *ret_upperp = ptr+2;
 
       ptr--;
-      if (*ptr == '=') { *ret_geq = TRUE; ptr--; }
+      if (*ptr == '=') { if (ptr == range) return eslEINVAL; *ret_geq = TRUE; ptr--; }
       if (*ptr != '<') return eslEINVAL;
       *ret_lowerp = range;	/* start of string */
     }
